@@ -1507,6 +1507,44 @@ impl World for WorldA {
         if let Some(s) = self.queue.pop_front() {
             return s;
         }
+        if rng.chance(1, 14) {
+            // F3 by construction: a draw placed on an allowance's expiry -1 / exactly / +1
+            let b = self.chain.block();
+            let mut live: Vec<(String, String, u128, Expiration)> = vec![];
+            if let Some(o) = &self.obs {
+                for ((ow, sp), (a, e)) in &o.allow {
+                    if *a > 0 && !matches!(e, Expiration::Never {}) && self.users.contains(sp) {
+                        live.push((ow.clone(), sp.clone(), *a, *e));
+                    }
+                }
+            }
+            if !live.is_empty() {
+                let (ow, sp, a, e) = rng.pick(&live).clone();
+                let off = *rng.pick(&[0u64, 1, 1, 2]);
+                let jump = match e {
+                    Expiration::AtHeight(h) => {
+                        let t = (h + off).saturating_sub(1);
+                        if t > b.height { Some(Step::Block { dh: t - b.height, dt: (t - b.height).saturating_mul(self.cfg.spb) }) } else { None }
+                    }
+                    Expiration::AtTime(ts) => {
+                        let t = (ts.seconds() + off).saturating_sub(1);
+                        if t > b.time.seconds() { Some(Step::Block { dh: 1, dt: t - b.time.seconds() }) } else { None }
+                    }
+                    _ => None,
+                };
+                if let Some(j) = jump {
+                    let amt = *rng.pick(&[a, a / 2, 1, a]);
+                    let rcpt = self.pick_any(rng);
+                    let m = match rng.below(3) {
+                        0 => json!({"burn_from":{"owner": ow, "amount": amt.to_string()}}),
+                        _ => json!({"transfer_from":{"owner": ow, "recipient": rcpt, "amount": amt.to_string()}}),
+                    };
+                    self.queue.push_back(Step::Tx { sender: sp, target: "token".into(), msg: m, funds: vec![], fault: None, script: vec![] });
+                    self.meter.hit("draw_scheduled_on_expiry_boundary");
+                    return j;
+                }
+            }
+        }
         let r = rng.below(100);
         if r >= 92 {
             // F1: the classic race — the owner reduces (or re-grants) an allowance while the spender draws,
